@@ -211,8 +211,31 @@ func checkC06(c *Ctx) {
 					if pl < 0 {
 						continue
 					}
+					nplaced := 0
+					for _, q := range place {
+						if q >= 0 {
+							nplaced++
+						}
+					}
 					for j := 0; j < 5; j++ {
 						vs := c06Build(n, place, j*(f+1))
+						if nplaced == 1 && verIdx(want) > 0 {
+							// the one feature alone decides: through the file reader too, declared
+							// exactly what it needs and one release less
+							for di, decl := range []string{want, releasedVersions[verIdx(want)-1]} {
+								fs := cloneSpec(vs)
+								fs.Version = decl
+								enc := []string{"json", "yaml"}[(j+di+count)%2]
+								path := filepath.Join(dir, sanitize(cs.Name)+"-one."+enc)
+								must(os.WriteFile(path, specBytes(fs, enc), 0o644))
+								_, rerr := cdi.ReadSpec(path, 0)
+								c.Count("readspec_single_feature", 1)
+								if (rerr == nil) != (di == 0) {
+									cs.Violation("readspec", map[string]string{"declared": decl}, fmt.Sprintf("ReadSpec(%s, declared %s, only feature %s in realisation %d, required %s): err=%v", enc, decl, c06Features[f].name, j, want, rerr), map[string]any{"file": string(specBytes(fs, enc)), "placement": append([]int{}, place...)})
+									return
+								}
+							}
+						}
 						if g, _ := specs.MinimumRequiredVersion(vs); g != want {
 							cs.Violation("minimum", map[string]string{"want": want, "got": g}, fmt.Sprintf("MinimumRequiredVersion = %s, features used require %s (n=%d placement=%v, realisation %d of feature %s)", g, want, n, place, j, c06Features[f].name), map[string]any{"n_devices": n, "placement": append([]int{}, place...), "spec": vs})
 							return
